@@ -228,6 +228,9 @@ func init() {
 		registerStandardExt()
 		c01stats = NewStats()
 		dl := deadline(r, 50*time.Second, 15*time.Minute)
+		for _, p := range []int{1, 2} {
+			exploreChoiceOpts(r, registerAfterPriorCalls(fmt.Sprintf("c01.coarse.p%d.b1", p)), 2, dl, 1)
+		}
 		if !thorough(r) {
 			for _, p := range []int{1, 2} {
 				for b := 0; b < 4; b++ {
